@@ -21,6 +21,7 @@ import (
 	"github.com/libp2p/go-libp2p-kad-dht/internal/vmc/jds"
 	"github.com/libp2p/go-libp2p-kad-dht/internal/vmc/kid"
 	"github.com/libp2p/go-libp2p-kad-dht/internal/vmc/sim"
+	"github.com/libp2p/go-libp2p-kad-dht/internal/vmc/vrand"
 	pb "github.com/libp2p/go-libp2p-kad-dht/pb"
 	"github.com/libp2p/go-libp2p-kad-dht/provider/keystore"
 )
@@ -39,6 +40,7 @@ type c17cfg struct {
 	r       int
 	workers string // "1", "2+dedicated"
 	depth   int
+	seed    uint64 // of the keys the provider draws for its prefix-length measurement
 }
 
 func c17Configs(tier string) []vmc.Cfg {
@@ -53,7 +55,13 @@ func c17Configs(tier string) []vmc.Cfg {
 				if tier != "thorough" && wk == "1" && sw != 6 {
 					continue
 				}
-				out = append(out, vmc.Cfg{Name: fmt.Sprintf("program/swarm%d/r%d/workers-%s/depth%d", sw, r, wk, depth), Data: c17cfg{sw, r, wk, depth}})
+				seeds := []uint64{1, 2}
+				if tier == "thorough" {
+					seeds = []uint64{1, 2, 3}
+				}
+				for _, seed := range seeds {
+					out = append(out, vmc.Cfg{Name: fmt.Sprintf("program/swarm%d/r%d/workers-%s/depth%d/seed%d", sw, r, wk, depth, seed), Data: c17cfg{sw, r, wk, depth, seed}})
+				}
 			}
 		}
 	}
@@ -169,6 +177,8 @@ func (e *c17env) nearest(t time.Duration, key int, r int) []peer.ID {
 
 func c17Run(x *vmc.X, cfg vmc.Cfg) {
 	c := cfg.Data.(c17cfg)
+	vrand.Hook = vrand.Seeded(c.seed) // the keys of the prefix-length measurement: the same in every execution and replay
+	defer func() { vrand.Hook = nil }()
 	self := kid.Peer("0110", 9)
 	e := &c17env{t0: time.Now(), swarm: map[peer.ID]bool{}, bk: c.r, addrs: []ma.Multiaddr{ma.StringCast("/ip4/8.8.8.8/tcp/4001")}}
 	cells := []string{"0000", "1000", "0100", "1100", "0010", "1010", "0110", "1110", "0001", "1001", "0101", "1101", "0011", "1011"}
